@@ -40,11 +40,11 @@ Lemma zgetl_zapp {V} (d : list (Z * list V)) k x k' :
 Proof.
   unfold zgetl. induction d as [|[a l] d IH]; cbn [zapp zget].
   - destruct (k' =? k); reflexivity.
-  - destruct (k =? a) eqn:E; cbn [zget].
-    + apply Z.eqb_eq in E. subst a. destruct (k' =? k) eqn:E2; [rewrite Z.eqb_refl; reflexivity | reflexivity].
-    + destruct (k' =? a) eqn:E2.
-      * destruct (k' =? k) eqn:E3; [|reflexivity]. apply Z.eqb_eq in E2. apply Z.eqb_eq in E3. subst. rewrite Z.eqb_refl in E. discriminate.
-      * exact IH.
+  - destruct (k =? a) eqn:E.
+    + apply Z.eqb_eq in E. subst a. cbn [zget]. rewrite ?Z.eqb_refl. destruct (k' =? k); reflexivity.
+    + cbn [zget]. rewrite ?E. destruct (k' =? a) eqn:E2; [|exact IH].
+      destruct (k' =? k) eqn:E3; [|reflexivity].
+      apply Z.eqb_eq in E2. apply Z.eqb_eq in E3. subst. rewrite Z.eqb_refl in E. discriminate.
 Qed.
 
 (* ------------------------------------------------------------------------------------------------ the invariant *)
@@ -77,7 +77,7 @@ Section Dfs.
       { apply (di_stack _ I parent depth (child :: children')); [rewrite Es; left; reflexivity | left; reflexivity]. }
       assert (Hstack1 : forall p d ch, In (p, d, ch) ((parent, depth, children') :: rest) -> forall c, In c ch -> In c (nbr_ids g p)).
       { intros p d ch [E | Hin] c Hc.
-        - inversion E. subst. apply (di_stack _ I parent depth (child :: children')); [rewrite Es; left; reflexivity | right; exact Hc].
+        - injection E as E1 E2 E3. subst p d ch. apply (di_stack _ I parent depth (child :: children')); [rewrite Es; left; reflexivity | right; exact Hc].
         - apply (di_stack _ I p d ch); [rewrite Es; right; exact Hin | exact Hc]. }
       destruct (negb (zhas (ds_visited st) child)).
       + (* tree edge *)
@@ -85,7 +85,8 @@ Section Dfs.
         * destruct (1 <? depth); [|exact Hstack1].
           destruct (filter (fun m => negb (m =? parent)) (nbr_ids g child)) as [|f0 front] eqn:Ef; [exact Hstack1|].
           intros p d ch [E | Hin] c Hc; [|apply (Hstack1 p d ch Hin c Hc)].
-          inversion E. subst. apply In_sort_by in Hc. rewrite <- Ef in Hc. apply filter_In in Hc. apply Hc.
+          injection E as E1 E2 E3. subst p d ch.
+          change (In c (sort_by (key child) (f0 :: front))) in Hc. apply In_sort_by in Hc. rewrite <- Ef in Hc. apply filter_In in Hc. apply Hc.
         * intros p c Hc. rewrite zgetl_zapp in Hc. destruct (p =? parent) eqn:Ep; [|apply di_edges0; exact Hc].
           apply Z.eqb_eq in Ep. subst p. apply in_app_or in Hc. destruct Hc as [Hc | [<- | []]]; [apply di_edges0; exact Hc | exact Hchild].
       + destruct (negb (pair_mem (child, parent) (ds_disc st))).
@@ -101,7 +102,7 @@ Section Dfs.
           { intros a. unfold cyc. rewrite zgetl_zapp. destruct (a =? child) eqn:Ec.
             - apply Z.eqb_eq in Ec. subst a. rewrite zgetl_zapp. destruct (child =? parent) eqn:E2; [apply Z.eqb_eq in E2; symmetry in E2; contradiction|].
               rewrite map_app. cbn [map snd orb]. reflexivity.
-            - rewrite zgetl_zapp. rewrite orb_false_r. destruct (a =? parent); [rewrite map_app; reflexivity | rewrite app_nil_r; reflexivity]. }
+            - rewrite zgetl_zapp. rewrite orb_false_r. destruct (a =? parent) eqn:Ep; [apply Z.eqb_eq in Ep; subst a; rewrite map_app; reflexivity | rewrite app_nil_r; reflexivity]. }
           destruct I. constructor; cbn [ds_stack ds_edges ds_tokens ds_cycle]; try assumption.
           -- intros a m c' Hin. rewrite zgetl_zapp in Hin. destruct (a =? child) eqn:Ec.
              ++ apply Z.eqb_eq in Ec. subst a. apply in_app_or in Hin. destruct Hin as [Hin | [E | []]].
@@ -155,7 +156,7 @@ Proof.
   inversion H. subst t. cbn [tr_dfs].
   eapply dfs_run_DI; [exact Hl | exact Hs | | exact Ed].
   constructor; cbn [ds_stack ds_edges ds_tokens ds_cycle].
-  - intros p d0 ch [E | []] c Hc. inversion E. subst. apply In_sort_by in Hc. exact Hc.
+  - intros p d0 ch [E | []] c Hc. injection E as E1 E2 E3. subst p d0 ch. apply In_sort_by in Hc. exact Hc.
   - intros p c [].
   - intros a m c [].
   - intros a. constructor.
